@@ -45,6 +45,37 @@ def _batch(args, dims, *, name, out, nb):
 
 batching.primitive_batchers[uf_p] = _batch
 
+# eager execution (jaxsmt.eager records the program of an EAGER call): only inside `with eager_world(W)`; anywhere else executing an unbound `uf` stays an error
+_EAGER_WORLD = [None]
+
+
+@contextlib.contextmanager
+def eager_world(w):
+    _EAGER_WORLD.append(w)
+    try:
+        yield w
+    finally:
+        _EAGER_WORLD.pop()
+
+
+def _impl(*args, name, out, nb):
+    w = _EAGER_WORLD[-1]
+    if w is None:
+        raise NotImplementedError(f"uninterpreted function {name} executed outside `with world(...)` / `with eager_world(...)`")
+    keypos = tuple(_iskey(a) for a in args)
+    ops = [np.asarray(jax.random.key_data(a)) if k else np.asarray(a) for a, k in zip(args, keypos)]
+    if nb == 0:
+        res = w.apply(name, out, ops, keypos, None)
+    else:
+        n = ops[0].shape[0]
+        lane_out = tuple((tuple(s[1:]), d) for s, d in out)
+        lanes = [w.apply(name, lane_out, [o[i] for o in ops], keypos, None) for i in range(n)]
+        res = [np.stack([np.asarray(l[j]) for l in lanes]) for j in range(len(out))]
+    return [jnp.asarray(np.asarray(r, dtype=np.dtype(d)).reshape(s)) for r, (s, d) in zip(res, out)]
+
+
+uf_p.def_impl(_impl)
+
 _WORLD = [None]
 
 
